@@ -323,7 +323,16 @@ class MultiCrossBlockRepeat(Block):
                 er += "\n " + names
             self.errors.add(er)
 
+        # `Cross` must not demand these combinations, either
+        self.__dict__.setdefault('_excluded_combinations', {})[tuple(crossing)] = excluded_crossings
+
         return sum([combination_weight(c) for c in excluded_crossings])
+
+    def excluded_combinations(self, crossing: List[Factor]) -> Set[Tuple[Level, ...]]:
+        """The level combinations of `crossing` that were counted as excluded or impossible
+        when determining the crossing size."""
+        self.crossing_size(crossing)
+        return self.__dict__.get('_excluded_combinations', {}).get(tuple(crossing), set())
 
     def __excluded_derived(self, excluded_level, c):
         """Given the complete crossing and an exclude constraint, returns true
